@@ -7,7 +7,16 @@ import (
 
 func init() {
 	register("drive:C16", func(a Args, w *ev.Writer) error {
-		return c16.Drive(w, c16.Opts{Tier: a.Tier, Seed: a.Seed, Shard: a.Shard, Shards: a.Shards})
+		o := c16.Opts{Tier: a.Tier, Seed: a.Seed, Shard: a.Shard, Shards: a.Shards}
+		if a.Part == "sessions" {
+			return c16.DriveSessions(w, o)
+		}
+		return c16.Drive(w, o)
 	})
-	register("replay:C16", func(a Args, w *ev.Writer) error { return c16.Replay(a.In, w, a.Seed) })
+	register("replay:C16", func(a Args, w *ev.Writer) error {
+		if a.Part == "sessions" {
+			return c16.ReplaySessions(a.In, w, a.Seed)
+		}
+		return c16.Replay(a.In, w, a.Seed)
+	})
 }
